@@ -1,5 +1,6 @@
 #!/bin/sh
 # dev/seedcheck.sh Cxx [name] "<pkg test args>"  — confirm a seeded change from /tmp/seed-Cxx-out and run the check against it.
+ROOT="$(cd "$(dirname "$0")/.." && pwd)"
 P="$1"; NAME="${2:-$1-agent1}"; PKGS="${3:-.}"
 OUT=/tmp/seed-$P-out
 export GOFLAGS=-mod=mod GOPROXY=off GOSUMDB=off GOTOOLCHAIN=local
@@ -21,8 +22,9 @@ echo "--- demo with change (must fail)"
 (cd "$WT/$DDIR" && go test -count=1 -run 'Seed|Demo' . 2>&1 | tail -4)
 rm "$WT/$DDIR/$DN"
 echo "--- check against the change"
-VERIF_EVIDENCE_DIR=/tmp/mut-evidence VERIF_REPLAY_DIR=/tmp/mut-replays VERIF_REPO="$WT" /verif/check "$P" --tier quick 2>&1 | grep -E "direct oracle|^VIOLATION|quick:|broken" | cut -c1-400
+VERIF_EVIDENCE_DIR=/tmp/mut-evidence-$$ VERIF_REPLAY_DIR=/tmp/mut-replays-$$ VERIF_REPO="$WT" "$ROOT/check" "$P" --tier quick 2>&1 | grep -E "direct oracle|^VIOLATION|quick:|broken" | cut -c1-400
 git -C /repo worktree remove --force "$WT"
-/verif/.build/extract -repo /repo -out /verif/lean/OsmVerif/Gen >/dev/null
-mkdir -p /verif/seeded/$NAME
-cp $OUT/patch.diff $OUT/meta.json $DEMO /verif/seeded/$NAME/
+"$ROOT/.build/extract" -repo /repo -out "$ROOT/lean/OsmVerif/Gen" >/dev/null
+mkdir -p $ROOT/seeded/$NAME
+cp $OUT/patch.diff $OUT/meta.json $DEMO $ROOT/seeded/$NAME/
+rm -rf /tmp/mut-evidence-$$ /tmp/mut-replays-$$
